@@ -11,7 +11,7 @@ THEOREMS = ["Hyp.QP." + t for t in (
     "c14_grammar_unambiguous", "c14_reject_iff_no_derivation", "c14_only_stop_words_rejected", "c14_well_formed",
     "c14_exec_ok_iff_executable", "c14_accepted_executable", "c14_ignored_are_the_stop_atoms",
     "c14_tokens_shape", "c14_scan_conserves", "c14_keywords_case_insensitive", "c14_quoted_is_atom")]
-CASES = {"quick": 9600, "thorough": 200000}
+CASES = {"quick": 6400, "thorough": 200000}
 BUDGET_S = {"quick": 35, "thorough": 700}
 BATCH = 40
 RULE = ("each case = 8 query strings x (parse, check, exec) against QueryParser(lexicon).parseQueryEx, "
